@@ -962,6 +962,7 @@ func runC13(c *Ctx) {
 	ruleGuardSubject(c)
 	ruleStaleAfterEdit(c)
 	ruleUnifyConsumes(c)
+	ruleGapReposition(c)
 	ruleAllocBounded(c, "mdiff", false)
 
 	// ---- R-LR-MIRROR
